@@ -298,7 +298,7 @@ def _run(ctx: Ctx, pools: list) -> None:
                                                      for c in r["calls"]]} if (i % 97 == 0 and (cbase == "pipe" or cbase.startswith("http:tiny"))) else None)
             if r["status"] != "ok":
                 # harness-level fact: the client did not get through the script at all (hang / escaped exception)
-                ctx.violation("Completes", {**_family(cfg), "clause": "Completes", "status": r["status"], "kind": "-", "named": "", "generic": "", "observed_error": ""},
+                ctx.violation("Completes", {**_family(cfg), "clause": "Completes", "status": r["status"], "kind": "-", "callstate": False, "named": "", "generic": "", "observed_error": ""},
                               {"calls": job["case"]["calls"], "xs": job["xs"], "cfg": cfg, "status": r["status"], "exc": r.get("exc"),
                                "server_died": r.get("server_died")})
                 continue
@@ -350,7 +350,8 @@ def _run(ctx: Ctx, pools: list) -> None:
                     # named = the named deviations (Dev_ switches of the spec) that exactly explain this call's history;
                     # generic = unexplained mismatches on the same call
                     seen_err = records[r]["obs"][k]["calls"][idx - 1]["err"] if idx >= 1 else []
-                    sig = {**_family(cfg), "clause": name, "kind": call["m"]["kind"], "named": named, "generic": generic,
+                    sig = {**_family(cfg), "clause": name, "kind": call["m"]["kind"], "callstate": bool(call["m"].get("cs")),
+                           "named": named, "generic": generic,
                            "observed_error": seen_err[1] if len(seen_err) > 1 else ""}
                     counts[name] = counts.get(name, 0) + 1
                     sk = jhash(sig)
